@@ -256,6 +256,34 @@ def r5(ctx):
                 q = "%s.%s" % (c.name, fn.name) if c else fn.name
                 ctx.check("%s:%s=%r" % (q, what, v), ok, where(m, node), "%r is not a member of the %s enumeration: building the Error PDU fails and the client gets no (or the wrong) answer" % (v, what))
     ctx.count("literals", n)
+    # the reject / abort reasons the exception classes carry are turned into PDUs by name: each must be a member of the enumeration
+    em = prog.module("errors")
+    rr = T.enumerations(prog.cls("apdu", "RejectReason"))
+    ar = T.enumerations(prog.cls("apdu", "AbortReason"))
+    k = 0
+    for cname, c in em.classes.items():
+        for attr, table, tname in (("rejectReason", rr, "RejectReason"), ("abortReason", ar, "AbortReason")):
+            node = c.attrs.get(attr)
+            if node is None or not isinstance(node, ast.Constant) or node.value is None:
+                continue
+            k += 1
+            v = node.value
+            ok = (v in table) if isinstance(v, str) else (v in table.values())
+            ctx.check("errors.%s:%s=%r" % (cname, attr, v), ok, where(em, node),
+                      "%r is not a member of apdu.%s: building the %s PDU for this exception raises, and the client gets no answer" % (v, tname, "Reject" if attr == "rejectReason" else "Abort"))
+    if k < 20:
+        raise ShapeError("errors.py: only %d reject/abort reason literals found" % k)
+    # ... and reasons passed by name or through the enumeration class elsewhere in the stack
+    for m, c, fn in prog.all_functions():
+        if m.name not in ("appservice", "app", "apdu"):
+            continue
+        for x in ast.walk(fn):
+            if isinstance(x, ast.Attribute) and isinstance(x.value, ast.Name) and x.value.id in ("AbortReason", "RejectReason") and isinstance(x.ctx, ast.Load):
+                table = ar if x.value.id == "AbortReason" else rr
+                if x.attr in ("enumerations", "_xlate_table", "vendor_range"):
+                    continue
+                q = "%s.%s" % (c.name, fn.name) if c else fn.name
+                ctx.check("%s:%s.%s" % (q, x.value.id, x.attr), x.attr in table, where(m, x), "%s has no member %s" % (x.value.id, x.attr))
 
 
 @rule("C10.R6", "a failing deferred call does not discard the rest of the queued batch", floor=2, engines="E1")
@@ -478,3 +506,65 @@ def r7(ctx):
         raise AnchorMissing("ServerSSM.await_response_timeout")
     names = [self_call(x) for x in calls_in(f)]
     ctx.check("ServerSSM.await_response_timeout:aborts", names.count("abort") == 1, where(c.module, f), "an application that never answers must end the transaction")
+    # nothing the peer can put into the request header may make the transaction's own code raise once it is registered:
+    # calls into helpers that refuse some argument values, with an argument taken from the received PDU, are guarded and
+    # answered with an abort
+    prog = ctx.prog
+    am = prog.module("apdu")
+    raisers = {}
+    for name, fn in am.functions.items():
+        rs = [r for r in walk_shallow(fn) if isinstance(r, ast.Raise) and r.exc is not None]
+        if rs:
+            raisers[name] = {norm(r.exc.func) if isinstance(r.exc, ast.Call) else norm(r.exc) for r in rs}
+    if "decode_max_apdu_length_accepted" not in raisers:
+        raise ShapeError("apdu.decode_max_apdu_length_accepted: no refusal found")
+    n = 0
+    for mname, m in c.methods.items():
+        if len(m.args.args) < 2:
+            continue
+        par = m.args.args[1].arg
+        for call in calls_in(m):
+            if isinstance(call.func, ast.Name) and call.func.id in raisers and any(isinstance(x, ast.Name) and x.id == par for a in call.args for x in ast.walk(a)):
+                n += 1
+                handled = False
+                p = getattr(call, "_parent", None)
+                child = call
+                while p is not None and p is not m:
+                    if isinstance(p, ast.Try) and any(child is st or any(child is y for y in ast.walk(st)) for st in p.body):
+                        for h in p.handlers:
+                            names = [norm(t) for t in (h.type.elts if isinstance(h.type, ast.Tuple) else [h.type])] if h.type is not None else ["BaseException"]
+                            covers = any(t in ("Exception", "BaseException") or t in raisers[call.func.id] or (t == "ValueError" and raisers[call.func.id] <= {"ValueError", "DecodingError"}) for t in names)
+                            hc = [self_call(x) for x in calls_in(h)]
+                            if covers and "abort" in hc and ("response" in hc or "request" in hc):
+                                handled = True
+                    child = p
+                    p = getattr(p, "_parent", None)
+                ctx.check("ServerSSM.%s:%s(%s):refusal-answered" % (mname, call.func.id, par), handled, where(c.module, call),
+                          "%s refuses some values (%s) and is given a field of the received request: the exception leaves the transaction registered, without timer and without reply"
+                          % (call.func.id, ", ".join(sorted(raisers[call.func.id]))))
+    ctx.check("ServerSSM:header-field-decoders-found", n >= 1, where(c.module, c.node), "no call of a refusing header-field decoder found in ServerSSM")
+    # device communication control: inbound traffic is filtered only while communication is disabled - for every other
+    # value the switch can hold (including one a peer wrote that is not a defined state) requests are still answered
+    sm = prog.cls("appservice", "StateMachineAccessPoint")
+    f = sm.methods.get("confirmation")
+    if f is None:
+        raise AnchorMissing("StateMachineAccessPoint.confirmation")
+    evd = Evaluator(prog, sm.module, sm)
+    K = "self.dccEnableDisable"
+    rets = []
+    for r in [x for x in walk_shallow(f) if isinstance(x, ast.Return)]:
+        fa = [z for z in facts_at(r) if K in norm(z.test)]
+        if fa:
+            rets.append((r, fa))
+    ctx.check("SMAP.confirmation:dcc-filter-present", len(rets) >= 1, where(sm.module, f), "no device-communication-control filter found")
+    probes = ["enable", "disable", "disableInitiation", "bogus", 3, None]
+    for i, (r, fa) in enumerate(rets):
+        reach = [v for v in probes if evd.may_hold(fa, {K: v})]
+        ctx.check("SMAP.confirmation:dcc-filter#%d:only-when-disabled" % (i + 1), reach == ["disable"], where(sm.module, r),
+                  "inbound PDUs are dropped for communication-control values %r; only 'disable' may silence the device (an undefined value written by a peer would otherwise mute it for good)" % (reach,))
+
+
+@rule("C10.R8", "the reply finds its way back: the return path toward a routed requester is (re)learned from every routed request, under the arrival network and link source", floor=4, engines="E0/E1 (shared with C19.R5)")
+def r8(ctx):
+    from . import c19
+    c19.r5(ctx)
